@@ -359,11 +359,16 @@ inline void emplace_shift(T *pos, SizeType n, Args &&...args) {
   } else {
     ElemStorage<T> e;
     amc::construct_at(e.ptr(), std::forward<Args>(args)...);
-    shift_right(pos, n);
     try {
-      relocate_after_shift(e.ptr(), pos);
+      shift_right(pos, n);
+      try {
+        relocate_after_shift(e.ptr(), pos);
+      } catch (...) {
+        shift_left(pos + 1, n);
+        throw;
+      }
     } catch (...) {
-      shift_left(pos + 1, n);
+      amc::destroy_at(e.ptr());
       throw;
     }
   }
@@ -946,21 +951,21 @@ class DynamicVector : public DynamicVectorBaseTypeDispatcher<T, Alloc, SizeType,
       SizeType idx = static_cast<SizeType>(position - this->begin());
       try {
         this->grow(this->size() + 1U);
+        pos = this->begin() + idx;
+        if (nElemsToShift == 0) {
+          amc::relocate_at(e.ptr(), pos);
+        } else {
+          shift_right(pos, nElemsToShift);
+          try {
+            relocate_after_shift(e.ptr(), pos);
+          } catch (...) {
+            shift_left(pos + 1, nElemsToShift);
+            throw;
+          }
+        }
       } catch (...) {
         amc::destroy_at(e.ptr());
         throw;
-      }
-      pos = this->begin() + idx;
-      if (nElemsToShift == 0) {
-        amc::relocate_at(e.ptr(), pos);
-      } else {
-        shift_right(pos, nElemsToShift);
-        try {
-          relocate_after_shift(e.ptr(), pos);
-        } catch (...) {
-          shift_left(pos + 1, nElemsToShift);
-          throw;
-        }
       }
     } else {
       pos = const_cast<iterator>(position);
@@ -979,12 +984,12 @@ class DynamicVector : public DynamicVectorBaseTypeDispatcher<T, Alloc, SizeType,
       amc::construct_at(e.ptr(), std::forward<Args &&>(args)...);
       try {
         this->grow(this->size() + 1U);
+        endIt = this->dynStorage() + this->size();
+        amc::relocate_at(e.ptr(), endIt);
       } catch (...) {
         amc::destroy_at(e.ptr());
         throw;
       }
-      endIt = this->dynStorage() + this->size();
-      amc::relocate_at(e.ptr(), endIt);
     } else {
       endIt = this->begin() + this->size();
       amc::construct_at(endIt, std::forward<Args &&>(args)...);
